@@ -66,13 +66,12 @@ PROPS = {
         decided=[
             'inner_extend_token: every punctuation / comment / whitespace / pragma / annotation / literal-class lexer kind maps to the parser kind of the same meaning; `_` <-> UNDERSCORE',
             'no spurious lexical error on well-formed comment / whitespace / ident / pragma / annotation / version tokens',
-            'scanner kind postconditions: line comment, block comment, whitespace, identifier classes',
+            'scanner kind postconditions: line comment, block comment, whitespace, identifier classes; maximal-munch extents: whitespace runs, identifiers (start character + longest run of continue characters), line comments (up to the next line break), strings and nested block comments (see C11), digit runs and exponents',
             'a token starting with a digit is the numeric literal of the OpenQASM 3 syntax (spec function num_spec): class, base, flags and extent by maximal munch; digit runs and exponents are consumed by maximal munch',
             'keyword and type-name tables: from_keyword / from_scalar_type give each of the 45 keyword kinds and 9 type kinds to exactly the spelling its variant name stands for, and None to everything else (table generated from the SyntaxKind variant names, not from the bodies)',
             'inner_extend_token: an identifier-shaped lexeme gets the keyword / type kind of exactly that spelling, `_` is UNDERSCORE, every other spelling is IDENT',
         ],
         not_decided=[
-            'maximal-munch extents of identifiers and line comments (strings and block comments: exact, see C11)',
             'lifting per-token facts to arbitrary lexeme sequences',
         ],
         explanation='Verus; per-token classification contracts.',
